@@ -258,4 +258,29 @@ def openTiledStrict (crc32 : Bytes → Nat) (inflate : Bytes → Option Bytes) (
         if tilesFromStrict file sd r.offsetCd start (sortByOffset infos) = some sd then readMembers crc32 inflate file sd r.offsetCd infos
         else none
 
+/-! ## round 8: the CQM loader with the opener at the position where the header reader stopped -/
+
+/-- `read_header`, the version test, then `_open_archive(file_like)` with `file_like.tell()` = what the header reader consumed
+    (`BadZipFile` of `zipfile` and the `ValueError` of the walk are one error class here) -/
+def containerLoadAt (pre : Bytes) (parse : Bytes → Option H) (verOk : List Nat → Bool) (openAt : Nat → Bytes → Option β)
+    (bytes : Bytes) : Res (H × β) :=
+  match (readHeader pre parse).run bytes with
+  | .err e => .err e
+  | .ub => .ub
+  | .ok ((ver, h), rest) =>
+    if !verOk ver then .err .value
+    else match openAt (bytes.length - rest.length) bytes with
+      | none => .err .zip
+      | some a => .ok (h, a)
+
+/-- member names as the `Archive` of the CQM model has them -/
+def openTiledChars (crc32 : Bytes → Nat) (inflate : Bytes → Option Bytes) (start : Nat) (file : Bytes) : Option Archive :=
+  (openTiledStrict crc32 inflate start file).map fun ms => ms.map fun m => (asciiChars m.1, m.2)
+
+/-- **`ConstrainedQuadraticModel.from_file` (2.0 files) after the round-8 repair** -/
+def cqmFileLoadTiled (guard : Bool) (dsz : Nat) (parseHdr : Bytes → Option CqmCounts) (crc32 : Bytes → Nat) (inflate : Bytes → Option Bytes)
+    (parse : Bytes → Option (QHeader J)) (okLabel : List Char → Bool) (bytes : Bytes) : Res CqmContent :=
+  (containerLoadAt cqmPrefix parseHdr cqmVerOk (openTiledChars crc32 inflate) bytes).bind fun ha =>
+    cqmDecodeChecked guard dsz ha.1 parse okLabel ha.2
+
 end FileFmt
